@@ -475,6 +475,19 @@ class Executor(ExprMixin, StmtMixin, Engine):
                     newl = mk_list(base.t, n - 1, narr)
                 for s2 in self.assign(f.value, newl, s1, line):
                     yield s2, NONE_VAL
+            elif name == 'index':
+                # xs.index(x[, start]): the first position >= start holding x; ValueError if there is none
+                x = self.coerce_elem(base, pos[0])
+                lo = self.clamp(n, pos[1], z3.IntVal(0)) if len(pos) > 1 else z3.IntVal(0)
+                if len(pos) > 2:
+                    raise OutOfSubset('list.index with stop', node)
+                k = z3.Int(fresh_name('ix'))
+                j = z3.Int(fresh_name('ij'))
+                present = z3.Exists([j], z3.And(lo <= j, j < n, z3.Select(arr, j) == x.e))
+                self.prove(s1, present, 'noraise', line, 'index-absent')
+                s1.assume(z3.And(lo <= k, k < n, z3.Select(arr, k) == x.e,
+                                 z3.ForAll([j], z3.Implies(z3.And(lo <= j, j < k), z3.Select(arr, j) != x.e))))
+                yield s1, mk_int(k)
             elif name == 'insert':
                 p = pos[0]
                 x = self.coerce_elem(base, pos[1])
